@@ -201,39 +201,82 @@ func rulePairing(c *Ctx, rule, rel string) {
 	}
 	nr := newNoRet(c)
 	sites := 0
+	type unit struct {
+		fd   *ast.FuncDecl
+		body *ast.BlockStmt
+		key  string
+	}
+	var units []unit
 	for _, fd := range c.allFuncDecls(rel) {
 		if fd.Recv != nil && recvTypeName(fd.Recv.List[0].Type) == "scope" {
 			continue // the scope API itself
 		}
+		units = append(units, unit{fd, fd.Body, c.declKey(rel, fd)})
+		// a function literal that is not deferred is a unit of its own (it must balance by itself); a
+		// deferred literal's pushes and pops count at the exits of the unit that defers it
+		nlit := 0
+		deferredLit := map[*ast.FuncLit]bool{}
+		ast.Inspect(fd.Body, func(x ast.Node) bool {
+			if d, ok := x.(*ast.DeferStmt); ok {
+				if fl, ok := d.Call.Fun.(*ast.FuncLit); ok {
+					deferredLit[fl] = true
+				}
+			}
+			if fl, ok := x.(*ast.FuncLit); ok && !deferredLit[fl] {
+				nlit++
+				units = append(units, unit{fd, fl.Body, fmt.Sprintf("%s$lit%d", c.declKey(rel, fd), nlit)})
+			}
+			return true
+		})
+	}
+	for _, u := range units {
+		fd, ubody := u.fd, u.body
 		// deferred pops count at every exit
 		deferred := map[string]int{}
 		hasPushPop := false
-		ast.Inspect(fd.Body, func(x ast.Node) bool {
-			if d, ok := x.(*ast.DeferStmt); ok {
-				if cal := calleeFunc(d.Call, sf.info); cal != nil && (sf.pop[cal] || sf.push[cal]) {
-					se := ast.Unparen(d.Call.Fun).(*ast.SelectorExpr)
+		count := func(call *ast.CallExpr, asDeferred bool) {
+			if cal := calleeFunc(call, sf.info); cal != nil && (sf.pop[cal] || sf.push[cal]) {
+				hasPushPop = true
+				if asDeferred {
+					se := ast.Unparen(call.Fun).(*ast.SelectorExpr)
 					if sf.pop[cal] {
 						deferred[types.ExprString(se.X)]--
 					} else {
 						deferred[types.ExprString(se.X)]++
 					}
-					hasPushPop = true
+				}
+			}
+		}
+		ast.Inspect(ubody, func(x ast.Node) bool {
+			switch n := x.(type) {
+			case *ast.FuncLit:
+				return false // its own unit
+			case *ast.DeferStmt:
+				if fl, ok := n.Call.Fun.(*ast.FuncLit); ok {
+					ast.Inspect(fl.Body, func(y ast.Node) bool {
+						if _, nested := y.(*ast.FuncLit); nested {
+							return false
+						}
+						if call, ok := y.(*ast.CallExpr); ok {
+							count(call, true)
+						}
+						return true
+					})
+				} else {
+					count(n.Call, true)
 				}
 				return false
-			}
-			if call, ok := x.(*ast.CallExpr); ok {
-				if cal := calleeFunc(call, sf.info); cal != nil && (sf.pop[cal] || sf.push[cal]) {
-					hasPushPop = true
-				}
+			case *ast.CallExpr:
+				count(n, false)
 			}
 			return true
 		})
 		if !hasPushPop {
 			continue
 		}
-		c.seen(c.declKey(rel, fd))
+		c.seen(u.key)
 		negAt := map[string]token.Pos{}
-		res := depthFlow(c, sf, nr, fd.Body, deferred, nil)
+		res := depthFlow(c, sf, nr, ubody, deferred, nil)
 		// negativity: inspect every block out-state
 		for b, st := range res.out {
 			for k, m := range st {
@@ -257,7 +300,7 @@ func rulePairing(c *Ctx, rule, rel string) {
 		}
 		for _, k := range sortedKeys(keys) {
 			sites++
-			key := fmt.Sprintf("%s %s", c.declKey(rel, fd), k)
+			key := fmt.Sprintf("%s %s", u.key, k)
 			if p, ok := negAt[k]; ok {
 				c.bad(rule, key+"#nonneg", p, "a path pops "+k+" below the depth the function was entered with; the caller's frame (or the data frame) is discarded")
 			} else {
@@ -1617,4 +1660,64 @@ func ruleR02j(c *Ctx) {
 	})
 	c.check(nidx > 0 && good == nidx, "R02j", "soyhtml.scope.lookup innermost-first", fd.Pos(), "frames are inspected from the last pushed outwards",
 		"the frame search does not visibly run from the last frame pushed to the first: an inner {let} or loop variable would no longer shadow an outer one")
+}
+
+// cssHypo: the {css} command has a component expression.
+type cssHypo struct{}
+
+func (cssHypo) expr(ev *evaluator, e ast.Expr, info *types.Info) (aval, bool) {
+	if be, ok := ast.Unparen(e).(*ast.BinaryExpr); ok && (be.Op == token.NEQ || be.Op == token.EQL) {
+		if id, ok := ast.Unparen(be.Y).(*ast.Ident); ok && id.Name == "nil" {
+			if se, ok := ast.Unparen(be.X).(*ast.SelectorExpr); ok && se.Sel.Name == "Expr" {
+				return constVal(constant.MakeBool(be.Op == token.NEQ)), true
+			}
+		}
+	}
+	return unknown, false
+}
+func (cssHypo) prim(ev *evaluator, fn *types.Func, call *ast.CallExpr, st state) (aval, bool) {
+	return unknown, false
+}
+func (cssHypo) isRead(fn *types.Func) bool { return false }
+
+// R02k: {css $component, suffix} writes component, a dash and the suffix, whatever the component's value
+// (the generated JavaScript concatenates the three unconditionally): evaluated path by path with the
+// component present, every completing path of the renderer's CssNode arm evaluates the "-" literal.
+func ruleR02k(c *Ctx) {
+	cases, fd := walkCaseTypes(c, "soyhtml", "state.walk")
+	if cases == nil {
+		return
+	}
+	cc := cases["CssNode"]
+	if cc == nil {
+		c.fatalf("anchor: the renderer's walk has no CssNode arm")
+		return
+	}
+	info := c.Pkgs["soyhtml"].TypesInfo
+	ev := newEvaluator(c, cssHypo{})
+	ev.watchLit = "-"
+	comps := ev.execBlock(cc.Body, state{env: env{}}, info)
+	paths, dashed := 0, 0
+	for _, cp := range comps {
+		if cp.kind == cNoReturn || cp.kind == cSpin {
+			continue
+		}
+		paths++
+		for _, e := range cp.st.tr.list() {
+			if e.name == "lit:-" {
+				dashed++
+				break
+			}
+		}
+	}
+	key := "soyhtml.state.walk CssNode component-dash"
+	switch {
+	case paths == 0:
+		c.unk("R02k", key, cc.Pos(), "no completing path evaluated")
+	case dashed != paths:
+		c.bad("R02k", key, cc.Pos(), fmt.Sprintf("with a component expression present, only %d of %d completing paths write the dash between component and suffix: for some component value the command prints the suffix alone, while the language (and the generated JavaScript) always joins them with '-'", dashed, paths))
+	default:
+		c.ok("R02k", key, cc.Pos(), fmt.Sprintf("all %d completing paths with a component write the '-' between component and suffix", paths))
+	}
+	_ = fd
 }
